@@ -375,6 +375,9 @@ VP_HARNESS(h_enc_big)
         want += LEN[i];
     vp_assert(fr->size() <= MAXF, "C07: frame count within the model bound");
     const size_t ix = vp_u16();  // sampled byte of packet 0
+#ifdef HUGE
+    vp_assume(ix < HUGE);  // copies transfer only a prefix in this mode (rt/vp_rt.h VP_MEM_PREFIX): only the head of packet 0 is comparable
+#endif
     bool seen = LEN[0] == 0 || ix >= LEN[0];
     size_t at0 = 0;              // bytes of packet 0 placed so far (packet 0 comes first on the wire)
     for (unsigned f = 0; f < MAXF; ++f)
